@@ -59,7 +59,15 @@ def gen_case(rng, tier, idx):
             dw = rng.choice([8, 16, 32])
         al = rng.choice([0, 0, 0, 1, 2, 3]) if aw > 2 else rng.choice([0, 0, 1])
         maps.append({"aw": aw, "dw": dw, "al": al})
-    return {"maps": maps, "steps": rng.randint(10, 60), "registers_only": rng.random() < 0.25}
+    case = {"maps": maps, "steps": rng.randint(10, 60), "registers_only": rng.random() < 0.25}
+    if rng.random() < 0.05:
+        # width-converting hierarchy prepared before the history starts: a narrow leaf behind a sparse window of a
+        # middle map, so that the wider first map can be offered the middle map as a dense window
+        wide = rng.choice([16, 32])
+        case["maps"] = [{"aw": rng.choice([6, 8, 10]), "dw": wide * 2, "al": rng.choice([0, 0, 1])},
+                        {"aw": rng.choice([3, 4, 5]), "dw": wide, "al": rng.choice([1, 1, 2])}, {"aw": 2, "dw": 8, "al": 0}] + maps[:2]
+        case["nested_preamble"] = True
+    return case
 
 
 NAMES_BAD = [None, "", (), ("a", ""), ("a", -1), 3, ("a", 1.5), ["a"]]
@@ -182,9 +190,17 @@ def run_case(case):
             a = rng.choice([-1, -8, "0", 1.0, None])
         return a
 
+    poisoned = set()     # maps holding an unequal-width window over a non-leaf map: all_resources() may assert there
+
+    def is_poisoned(t, seen=()):
+        if t in poisoned:
+            return True
+        return any(it["kind"] == "win" and it["child"] in models and models.index(it["child"]) not in seen and
+                   is_poisoned(models.index(it["child"]), seen + (t,)) for it in models[t].items)
+
     def snapshot(t):
         m = lives[t]
-        return (live_resources(m), live_windows(m), live_all(m))
+        return (live_resources(m), live_windows(m), live_all(m) if not is_poisoned(t) else None)
 
     def compare_reports(t, why):
         m, mm = lives[t], models[t]
@@ -235,6 +251,10 @@ def run_case(case):
         t = 0 if rng.random() < 0.55 else rng.randrange(len(lives))
         m, mm = lives[t], models[t]
         op = rng.choice(["res", "res", "res", "res", "win", "win", "align", "bad", "freeze", "dup"])
+        forced = bool(case.get("nested_preamble")) and i == rng_first_nested
+        if forced:
+            t, op = 0, "win"
+            m, mm = lives[t], models[t]
         before = snapshot(t)
         if op == "res":
             r = new_res()
@@ -300,26 +320,54 @@ def run_case(case):
             judge(t, pred, raised, out, before, why)
         elif op == "win":
             c = rng.randrange(len(lives))
+            # now and then aim at a dense window over a map that itself holds a (possibly sparse) window
+            nested = [k for k in range(len(lives)) if k != t and models[k].dw < mm.dw and mm.dw % models[k].dw == 0 and
+                      not models[k].frozen_by_parent(mm) and any(it["kind"] == "win" for it in models[k].items)]
+            aimed = bool(nested) and (forced or rng.random() < 0.35)
+            if aimed:
+                c = rng.choice(nested)
+            else:
+                # ... or at a dense window over any narrower map
+                narrower = [k for k in range(len(lives)) if k != t and models[k].dw < mm.dw and mm.dw % models[k].dw == 0 and
+                            not models[k].frozen_by_parent(mm)]
+                if narrower and rng.random() < 0.25:
+                    c = rng.choice(narrower)
+                    aimed = True
             if c == t:
                 return          # a map is never added to itself (outside the property's domain)
             child, cm = lives[c], models[c]
+            poison = False
             if cm.dw != mm.dw and any(it["kind"] == "win" for it in cm.items):
-                # A dense (or sparse) window of unequal width over a map that itself contains windows is outside
-                # the domain of C02/C03 (dense windows are claimed over leaf maps only): the recursive queries
-                # all_resources()/find_resource() assert on such trees. Not generated.
-                mon.count("skipped_unequal_width_window_over_non_leaf_map")
-                return
+                # A dense (or sparse) window of unequal width over a map that itself contains windows: the recursive
+                # queries all_resources()/find_resource() may assert on such trees (outside C03's domain), but what C02
+                # claims for dense windows - disjointness, bounds, size, reporting and failure atomicity - is judged
+                # on resources()/windows() alone. Half of them are generated; the parent is then excluded from
+                # all_resources() snapshots.
+                if not aimed and rng.random() < 0.5:
+                    mon.count("skipped_unequal_width_window_over_non_leaf_map")
+                    return
+                poison = True
             before_child = snapshot(c)
             child_frozen_before = cm.frozen
             name = rng.choice([None, None, fresh_name(), fresh_name()])
             if rng.random() < 0.05 and mm.names:
                 name = rng.choice(sorted(mm.names, key=repr))
-            sparse = rng.choice([None, None, None, True, False])
+            sparse = rng.choice([None, None, None, True, False]) if not aimed else rng.choice([False, False, None])
             addr = None
             if rng.random() < 0.4:
                 addr = pick_addr(t)
                 if isinstance(addr, int) and rng.random() < 0.7:
                     addr = addr // (1 << cm.aw) * (1 << cm.aw)
+            if mm.items and rng.random() < (0.5 if aimed else 0.15):
+                # explicit placement so that the window's span ends at (or a few addresses into / short of) the start of
+                # an existing item, or starts at the end of one
+                ratio_ = mm.dw // cm.dw if (not sparse and cm.dw and mm.dw % cm.dw == 0) else 1
+                span = max(1, (1 << cm.aw) // max(1, ratio_))
+                it_ = rng.choice(mm.items)
+                addr = rng.choice([it_["start"] - span + rng.choice([0, 1, 2, 3, ratio_ - 1, ratio_]), it_["end"] - rng.choice([0, 1, 2])])
+                if addr < 0:
+                    addr = 0
+                mon.count("abutting_explicit_window_placements")
             why = f"{mm.label}.add_window({cm.label}, name={name!r}, addr={addr!r}, sparse={sparse!r})"
             mon.log(why)
             pred = mm.predict_add_window(id(child), True, cm, name, addr, sparse)
@@ -332,6 +380,9 @@ def run_case(case):
                 mon.eq("window_ratio", out[2], exp_ratio, f"{why}: ratio")
                 mm.commit_window(id(child), cm, name, out[0], out[1], out[2])
                 mon.bin("window_kinds", "sparse" if (sparse and mm.dw != cm.dw) else f"ratio{out[2]}")
+                if poison:
+                    poisoned.add(t)
+                    mon.count("unequal_width_windows_over_non_leaf_maps")
             else:
                 # half-applied check on the child: a refused add_window must not freeze or change it
                 mon.eq("atomic", snapshot(c), before_child, f"{why}: raised but changed {cm.label}")
@@ -388,7 +439,21 @@ def run_case(case):
         if rng.random() < 0.35 or t in st["refused_on"] and rng.random() < 0.5:
             probe(t)
 
+    rng_first_nested = rng.randint(0, 3)
+
+    def preamble():
+        leaf, mid = 2, 1
+        r = new_res()
+        nm = fresh_name()
+        out = lives[leaf].add_resource(r, name=nm, size=rng.choice([1, 2]))
+        models[leaf].commit_resource(id(r), nm, out[0], out[1])
+        out = lives[mid].add_window(lives[leaf], sparse=True)
+        models[mid].commit_window(id(lives[leaf]), models[leaf], None, out[0], out[1], out[2])
+        mon.count("width_converting_hierarchies_prepared")
+
     def history():
+        if case.get("nested_preamble"):
+            preamble()
         for i in range(case["steps"]):
             step(i)
         for t in range(len(lives)):
